@@ -20,6 +20,8 @@ From Verif Require Import Chain.Cycles.
 From Verif Require Import Chain.Order.
 From Verif Require Import Chain.Final.
 From Verif Require Import Chain.Validity.
+From Verif Require Import Chain.Context.
+From Verif Require Import Chain.TargetId.
 From Verif Require Import Chain.Examples.
 From Coq Require Import Permutation.
 Local Open Scope string_scope.
@@ -98,6 +100,16 @@ Theorem C15_cycles_reported_splitters : forall es cx svc mo a,
   compile es cx svc mo = Err ECircularReference.
 Proof. exact reference_cycle_reported'. Qed.
 
+(* "Failover cycles": failover is never followed, so it cannot form a cycle — a failover target is
+   only resolved (its redirects and default subset; a redirect cycle there is reported by
+   C15_cycles_reported with QFail) and listed; its own failover section is not looked at.  Two
+   resolvers failing over to each other compile to ONE resolver node listing the other as target. *)
+Theorem C15_failover_not_followed :
+  exists g, compile mutual_failover test_ctx "a" [] = Ok g /\
+            g_nodes g = [(NResolver (Tgt "a" "" "dc1"), ResolverN false [Tgt "b" "" "dc1"])] /\
+            g_targets g = [Tgt "a" "" "dc1"; Tgt "b" "" "dc1"].
+Proof. exact mutual_failover_compiles. Qed.
+
 (* Redirects: wherever getResolverNode starts its RESOLVE_AGAIN loop (routes, splits, failover
    targets) on a target whose redirect / default-subset walk never ends, the loop returns the
    circular-redirect error (a protocol mismatch met earlier on the walk is reported first);
@@ -174,6 +186,34 @@ Theorem C15_write_preserves_validity : forall store op store' mo,
   forall x, (exists g, compile store test_ctx x mo = Ok g) -> exists g, compile store' test_ctx x mo = Ok g.
 Proof. exact write_preserves_validity. Qed.
 
+(* History level: every store that arises from the empty store by EnsureConfigEntry /
+   DeleteConfigEntry calls (accepted or not) with entries Validate lets through keeps every chain
+   compilable in the guard's context, and keeps the hypothesis above. *)
+Theorem C15_reachable_stores_valid : forall store,
+  Reachable store ->
+  failover_wf store /\ forall x mo, exists g, compile store test_ctx x mo = Ok g.
+Proof. exact reachable_valid. Qed.
+
+(* "... in all evaluation contexts and overrides": the guard test-compiles in dc1 without override
+   only.  Full statement FALSE of the faithful model (finding C15-guard-context): a reachable store
+   whose chain "a" compiles in the guard's context and fails under OverrideProtocol = tcp, because
+   the override skips the splitter in front of a's resolver, which the guard never resolved. *)
+Theorem C15_context_independence_refuted :
+  Reachable ctx_store /\
+  (exists g, compile ctx_store test_ctx "a" [] = Ok g) /\
+  compile ctx_store (Ctx "dc1" "tcp") "a" [] = Err EBadSubset.
+Proof. exact context_dependence. Qed.
+
+(* ... and holds for every context in the guard's datacenter whose override keeps routers and
+   splitters (none, or an http-like protocol): the same chain is compiled.  (Other datacenters:
+   not proved; the store oracle compiles every stored chain in dc2 as well.) *)
+Theorem C15_context_independence_partial : forall es cx svc mo g,
+  c_dc cx = "dc1" -> disable_adv cx = false ->
+  compile es test_ctx svc mo = Ok g ->
+  exists g', compile es cx svc mo = Ok g' /\
+             g_start g' = g_start g /\ g_nodes g' = g_nodes g /\ g_targets g' = g_targets g.
+Proof. exact context_independence_partial. Qed.
+
 (* Regression witness: the two-hop write that used to be accepted — router a -> splitter b -> c,
    then service-defaults c protocol=grpc — is refused and leaves the store unchanged. *)
 Theorem C15_write_guard_two_hops :
@@ -183,11 +223,26 @@ Theorem C15_write_guard_two_hops :
   write indirect_store indirect_op = (indirect_store, false).
 Proof. exact guard_two_hops_rejected. Qed.
 
+(* ---------------------------------------------------------------- target identity *)
+
+(* The model identifies a target with (service, subset, datacenter); the code with the string
+   structs.ChainID.  "Distinct targets have distinct ids" is FALSE (finding C15-target-id-collision:
+   newTarget hands back the earlier object, so a route to service "v1.a" lands on subset v1 of "a") *)
+Theorem C15_target_id_injective_refuted :
+  Tgt "v1.a" "" "dc1" <> Tgt "a" "v1" "dc1" /\ chain_id (Tgt "v1.a" "" "dc1") = chain_id (Tgt "a" "v1" "dc1").
+Proof. exact chain_id_collision. Qed.
+
+(* ... and holds when service, subset and datacenter names contain no dot: exactly the inputs on
+   which all theorems of this file speak about the code *)
+Theorem C15_target_id_injective_partial : forall t1 t2,
+  dot_free t1 -> dot_free t2 -> chain_id t1 = chain_id t2 -> t1 = t2.
+Proof. exact chain_id_injective. Qed.
+
 (* ---------------------------------------------------------------- non-vacuity *)
 
 (* the hypotheses of the theorems above are met by non-trivial inputs (coq/Chain/Examples.v):
    a chain that compiles to a router, a splitter and three resolvers; a redirect cycle a -> b -> a;
-   splitters chained two deep; a redirect cycle behind a failover target; a splitter cycle *)
+   a redirect cycle behind a failover target; a splitter cycle; the initial compiler state *)
 Example C15_example_compiles :
   NoDup (map ekey ex_entries) /\
   (forall s l, get_splitter ex_entries s = Some l -> l <> []) /\
@@ -199,10 +254,12 @@ Example C15_example_cycle :
   compile cyc_entries test_ctx "a" [] = Err ECircularRedirect.
 Proof. exact example_cycle. Qed.
 
-Example C15_example_two_deep :
-  (forall a b c, splits_to two_deep test_ctx a b -> splits_to two_deep test_ctx b c -> False) /\
-  exists g, compile two_deep test_ctx "a" [] = Ok g /\ List.length (g_nodes g) = 4.
-Proof. exact example_two_deep. Qed.
+Example C15_example_initial_invariants : forall es cx svc,
+  AInv es cx svc [] [] st0 /\ Final_memo es cx st0.
+Proof. exact initial_invariants. Qed.
+
+Example C15_example_dot_free : dot_free (Tgt "web" "v1" "dc1") /\ disable_adv (Ctx "dc1" "http") = false.
+Proof. repeat split. Qed.
 
 Example C15_example_failover_cycle :
   Req fail_cycle test_ctx "a" (QFail (Tgt "b" "" "dc1")) /\
@@ -235,9 +292,16 @@ Print Assumptions C15_deterministic_order.
 Print Assumptions C15_write_guard.
 Print Assumptions C15_write_preserves_validity.
 Print Assumptions C15_write_guard_two_hops.
+Print Assumptions C15_failover_not_followed.
+Print Assumptions C15_reachable_stores_valid.
+Print Assumptions C15_context_independence_refuted.
+Print Assumptions C15_context_independence_partial.
+Print Assumptions C15_target_id_injective_refuted.
+Print Assumptions C15_target_id_injective_partial.
 Print Assumptions C15_example_validity.
 Print Assumptions C15_example_compiles.
 Print Assumptions C15_example_cycle.
-Print Assumptions C15_example_two_deep.
+Print Assumptions C15_example_initial_invariants.
+Print Assumptions C15_example_dot_free.
 Print Assumptions C15_example_failover_cycle.
 Print Assumptions C15_example_splitter_cycle.
